@@ -4,6 +4,8 @@ import (
 	"encoding/json"
 	"flag"
 	"fmt"
+	"io"
+	"log/slog"
 	"os"
 	"os/exec"
 	"path/filepath"
@@ -80,6 +82,10 @@ func main() {
 		_ = fs.Parse(os.Args[3:])
 		os.Exit(core.RunProperty(os.Args[2], *tier, *seed, self, buildRace))
 	case "child":
+		if os.Getenv("VERIF_LOG") == "" {
+			// the system under test logs through the default slog logger; keep child logs small
+			slog.SetDefault(slog.New(slog.NewTextHandler(io.Discard, &slog.HandlerOptions{Level: slog.Level(100)})))
+		}
 		fs := flag.NewFlagSet("child", flag.ExitOnError)
 		part := fs.String("part", "", "")
 		tier := fs.String("tier", "quick", "")
